@@ -92,6 +92,7 @@ FUNCS = {
         ensures=[
             ('report_iff_requested_action_occurred',
              '(result is None) == (no_report_wanted(self) or not requested_occurred(self))', ['C19']),
+            ('report_is_new_container', 'implies(result is not None, not existed(unwrap(result)))', []),
             ('addressed_to_report_to',
              'implies(result is not None, eqv(pri(unwrap(result)).destination, pri(self).report_to))', ['C19']),
             ('is_admin_record_and_requests_nothing',
